@@ -19,10 +19,10 @@ breaker('C05', 'bs-abort-release-out-of-finally', 'C05.R1', BSPY,
 breaker('C05', 'ds-begin-owner-after-delegate', 'C05.R1', DSPY,
         'DemoStorage.tpc_begin',
         '''            self._transaction = transaction
-            if not a and 'tid' not in k:''',
+            if (a[0] if a else k.get('tid')) is None:''',
         '''            self.changes.lastTransaction()
             self._transaction = transaction
-            if not a and 'tid' not in k:''')
+            if (a[0] if a else k.get('tid')) is None:''')
 breaker('C05', 'ms-abort-no-release', 'C05.R1', MSPY,
         'MappingStorage.tpc_abort',
         '''        self._transaction = None
@@ -2477,3 +2477,116 @@ twin('C18', 'verify-chain-membership-as-set', RZPY, 'do_verify',
         if filename not in recorded:''',
      '''    for filename in sorted(set(repofiles) - recorded):
         if True:''')
+
+# ---- round 6 rules, F62, F63 ------------------------------------------------
+SERPY_ = 'ZODB/serialize.py'
+breaker('C14', 'weakref-remembered-oid-unchecked', 'C14.R11', SERPY_,
+        'ObjectWriter.persistent_id',
+        '''                    if target is not None and target._p_oid != oid:''',
+        '''                    if target is not None and False:''')
+breaker('C17', 'fs-iterator-ignores-storage-stop', 'C17.R16', FSPY,
+        'FileStorage.iterator',
+        '''            if stop is None or stop > last:
+                stop = last''',
+        '''            pass''')
+breaker('C16', 'ds-loadbefore-shortcut-at-last', 'C16.R12', DSPY,
+        'DemoStorage.loadBefore',
+        '''                    if tid == maxtid:''',
+        '''                    if tid >= self.changes.lastTransaction():''')
+twin('C16', 'ds-loadbefore-shortcut-flipped', DSPY, 'DemoStorage.loadBefore',
+     '''                    if tid == maxtid:''',
+     '''                    if maxtid == tid:''')
+breaker('C16', 'ms-loadbefore-raises-for-early-bound', 'C16.R11', MSPY,
+        'MappingStorage.loadBefore',
+        '''            if tids_before:
+                tids_after = tid_data.keys(tid, None)
+                tid = tids_before[-1]
+                return (tid_data[tid], tid,
+                        (tids_after and tids_after[0] or None)
+                        )
+        else:''',
+        '''            if tids_before:
+                tids_after = tid_data.keys(tid, None)
+                tid = tids_before[-1]
+                return (tid_data[tid], tid,
+                        (tids_after and tids_after[0] or None)
+                        )
+            raise ZODB.POSException.POSKeyError(oid)
+        else:''')
+breaker('C06', 'undodatainfo-reports-committed-pos', 'C06.R11', FSPY,
+        'FileStorage._undoDataInfo',
+        '''            itpos = tpos - self._pos - self._thl
+            pos = tpos
+            tpos = self._tfile.tell()''',
+        '''            itpos = tpos - self._pos - self._thl
+            tpos = self._tfile.tell()''')
+twin('C06', 'undodatainfo-locals-renamed', FSPY, 'FileStorage._undoDataInfo',
+     '''            itpos = tpos - self._pos - self._thl
+            pos = tpos
+            tpos = self._tfile.tell()
+            h = self._tfmt._read_data_header(itpos, oid)''',
+     '''            pos = tpos
+            tend = self._tfile.tell()
+            h = self._tfmt._read_data_header(
+                tpos - self._pos - self._thl, oid)
+            tpos = tend''')
+breaker('C17', 'scan-backward-at-older-transaction', 'C17.R15', FSPY,
+        'FileIterator._scan_backward',
+        '''                if h.tid == start:
+                    self._pos = pos
+                else:
+                    self._pos = pos + tlen + 8''',
+        '''                self._pos = pos''')
+breaker('C17', 'scan-forward-strict', 'C17.R15', FSPY,
+        'FileIterator._scan_forward',
+        '''            if h.tid >= start:
+                self._pos = pos
+                return
+
+            pos += h.tlen + 8''',
+        '''            if h.tid > start:
+                self._pos = pos - 0
+                return
+            if h.tid == start:
+                self._pos = pos + h.tlen + 8
+                return
+
+            pos += h.tlen + 8''')
+twin('C17', 'scan-backward-strict-first', FSPY, 'FileIterator._scan_backward',
+     '''                if h.tid == start:
+                    self._pos = pos
+                else:
+                    self._pos = pos + tlen + 8''',
+     '''                if h.tid < start:
+                    self._pos = pos + tlen + 8
+                else:
+                    self._pos = pos''')
+breaker('C12', 'rollback-keeps-added-objects', 'C12.R12', CONNPY,
+        'Connection._rollback_savepoint',
+        '''        self._invalidate_creating(oid for oid in src.creating
+                                  if oid not in state[2])''',
+        '''        self._invalidate_creating(oid for oid, implicit
+                                  in src.creating.items()
+                                  if implicit and oid not in state[2])''')
+breaker('C14', 'multi-oid-probes-own-cache', 'C14.R9', SERPY_,
+        'ObjectReader.load_multi_oid',
+        '''        conn = self._conn.get_connection(database_name)
+        # TODO, make connection _cache attr public
+        reader = ObjectReader(conn, conn._cache, self._factory)
+        return reader.load_oid(oid)''',
+        '''        obj = self._cache.get(oid, None)
+        if obj is not None:
+            return obj
+        return self._conn.get_connection(database_name).get(oid)''')
+breaker('C07', 'undoing-sweep-removes-dir-of-gone-object', 'C13.R13', BLOBPY,
+        'BlobStorage._packUndoing',
+        '''            files, newer = self._blob_sweep_files(oid_path, cutoff)
+            for filename in files:''',
+        '''            files, newer = self._blob_sweep_files(oid_path, cutoff)
+            if not newer:
+                try:
+                    utils.load_current(self, oid)
+                except POSKeyError:
+                    remove_committed_dir(oid_path)
+                    continue
+            for filename in files:''')
